@@ -4,6 +4,11 @@ which are expected to notice it (quick tier), undo it, and write /verif/seeded/<
 /verif/seeded/RESULTS.json."""
 import json, os, subprocess, sys, time
 ROOT = "/verif/seeded"
+# By default the change is applied to /repo itself and undone afterwards. With SWEEP_WT=<dir> (a scratch
+# git worktree of /repo outside /repo and /verif) it is applied there and the checks are pointed at it
+# through VERIF_REPO, so that /repo stays untouched while other runs are building from it.
+WT = os.environ.get("SWEEP_WT", "")
+TARGET = WT or "/repo"
 # seed id -> checks (and optional part) to run
 PLAN = {
     "C01-m1": [("C01", None)], "C01-m2": [("C01", None)],
@@ -39,9 +44,11 @@ def main():
         patch = os.path.join(d, "patch.rebased.diff")
         if not os.path.exists(patch):
             patch = os.path.join(d, "patch.diff")
-        if sh("git", "-C", "/repo", "status", "--porcelain").stdout.strip():
+        if WT:
+            sh("git", "-C", WT, "checkout", "-q", "--detach", sh("git", "-C", "/repo", "rev-parse", "HEAD").stdout.strip())
+        if sh("git", "-C", TARGET, "status", "--porcelain").stdout.strip():
             print("REPO NOT CLEAN"); sys.exit(2)
-        r = sh("git", "-C", "/repo", "apply", patch)
+        r = sh("git", "-C", TARGET, "apply", patch)
         if r.returncode != 0:
             results[sid] = {"applies": False, "error": r.stderr[:300]}
             print(sid, "DOES NOT APPLY"); continue
@@ -50,14 +57,14 @@ def main():
             for cid, part in PLAN[sid]:
                 t0 = time.time()
                 cmd = ["./check", cid] + (["--part", part] if part else [])
-                p = sh(*cmd, cwd="/verif")
+                p = sh(*cmd, cwd="/verif", env=dict(os.environ, VERIF_REPO=TARGET))
                 keys = sorted(set(l.split(" key=")[1].split(" what=")[0] for l in p.stdout.splitlines() if l.startswith("VIOLATION") and " key=" in l))
                 runs.append({"cmd": " ".join(cmd), "exit": p.returncode, "violation_keys": keys, "wall_s": round(time.time() - t0, 1)})
                 if p.returncode not in (0, 1):
                     runs[-1]["tail"] = (p.stdout + p.stderr)[-800:]
         finally:
-            sh("git", "-C", "/repo", "reset", "-q", "--hard", "HEAD")
-            sh("git", "-C", "/repo", "clean", "-fdq")
+            sh("git", "-C", TARGET, "reset", "-q", "--hard", "HEAD")
+            sh("git", "-C", TARGET, "clean", "-fdq")
         caught = [r["cmd"] for r in runs if r["exit"] == 1]
         results[sid] = {"applies": True, "repo_head": head, "runs": runs, "caught_by": caught}
         print(sid, "CAUGHT by " + ", ".join(caught) if caught else "NOT CAUGHT", flush=True)
